@@ -55,6 +55,19 @@ int main(int argc, char** argv) {
   add_prop(nm("p_extractreal", {CFG}), 4, 2e-3, 1e-7, [](auto const* x) { using T = TY(x); glm::qua<T, glm::defaultp> q; if (!unitq(x, q)) return T(-1);
     if (std::abs(q.w) < T(0.05)) return T(-1);
     return std::abs(std::abs(glm::extractRealComponent(q)) - std::abs(q.w)); });   // (glm returns the negative root, the convention of the MD5 model format; the sign is not part of C04)
+  // cross-type / cross-qualifier quaternion conversions (invisible to the tracer: they change the element type): every NAMED component is the
+  // static_cast of the same named component, in both memory orders; also qua(s, vec3) and wxyz() by name
+  add_prop(nm("p_qconvert", {CFG}), 4, 0.0, 0.0, [](auto const* x) { using T = TY(x); int bad = 0;
+    double w = (double)x[0] * 1.0000001, a = (double)x[1] * 1.0000001, b = (double)x[2] * 1.0000001, c = (double)x[3] * 1.0000001;
+    glm::qua<double, glm::highp> qd = glm::qua<double, glm::highp>::wxyz(w, a, b, c);
+    glm::qua<float, glm::highp> qf(qd); bad += !(qf.w == (float)w && qf.x == (float)a && qf.y == (float)b && qf.z == (float)c);
+    glm::qua<double, glm::highp> qb(qf); bad += !(qb.w == (double)(float)w && qb.x == (double)(float)a && qb.y == (double)(float)b && qb.z == (double)(float)c);
+    glm::qua<float, glm::lowp> ql(qd); bad += !(ql.w == (float)w && ql.x == (float)a && ql.y == (float)b && ql.z == (float)c);
+    glm::qua<double, glm::mediump> qm(ql); bad += !(qm.w == (double)(float)w && qm.x == (double)(float)a && qm.y == (double)(float)b && qm.z == (double)(float)c);
+    glm::qua<float, glm::mediump> qq((glm::qua<float, glm::highp>(qd))); bad += !(qq.w == (float)w && qq.x == (float)a && qq.y == (float)b && qq.z == (float)c);
+    glm::qua<double, glm::highp> qs(w, glm::dvec3(a, b, c)); bad += !(qs.w == w && qs.x == a && qs.y == b && qs.z == c);
+    glm::qua<float, glm::highp> qs2((float)w, glm::vec3((float)a, (float)b, (float)c)); bad += !(qs2.w == (float)w && qs2.x == (float)a && qs2.y == (float)b && qs2.z == (float)c);
+    return (T)bad; });
   add_prop(nm("p_fromto", {CFG}), 6, 5e-3, 1e-6, [](auto const* x) { using T = TY(x); auto u = ldv<3, T>(x), v = ldv<3, T>(x + 3);
     if (!(glm::length(u) > T(0.3)) || !(glm::length(v) > T(0.3))) return T(-1);
     glm::qua<T, glm::defaultp> q(u, v); auto r = q * glm::normalize(u); auto w = glm::normalize(v);
